@@ -96,6 +96,19 @@ func lockRules(c *Ctx, p *Program, label string) {
 				// constructor: the object is allocated in this function (not yet published)
 				_, isCtor := base.(*ssa.Alloc)
 				mu, guarded := guardedBy[tname][fname]
+				if !guarded && write && namedTypePkg(base.Type()) == sp.Pkg.Path() && len(guardedBy[tname]) > 0 {
+					// a field outside the table (e.g. a scratch buffer added later): whatever it is, storing to it while the
+					// object's lock is held for READING only is a race between the readers themselves
+					if _, isCtor := base.(*ssa.Alloc); !isCtor {
+						for _, m := range guardedBy[tname] {
+							lk := accessPath(base) + "." + m
+							if st := la.stateAt(fn, in); st.held[lk] == 1 {
+								c.Bad("C17.2", fmt.Sprintf("write of %s.%s in %s [%s] under the read lock", tname, fname, FuncName(fn), label), p.Pos(in.Pos()), fmt.Sprintf("%s.%s is stored to while %s is held for reading only: concurrent holders of the read lock (e.g. two Sends) race on it", tname, fname, lk))
+							}
+							break
+						}
+					}
+				}
 				if !guarded || namedTypePkg(base.Type()) != sp.Pkg.Path() {
 					continue
 				}
@@ -131,6 +144,8 @@ func checkC17(c *Ctx) {
 	c.Rule("C17.1", "lock pairing on all paths in every function and goroutine closure of the process-backed driver (linux and windows file sets)", 8)
 	c.Rule("C17.2", "guarded-by: hasProc/listener (in), cmd/wr/rd (out), opened (Driver) are read with the owner's mutex held and written with it write-held", 15)
 	c.Rule("C17.3", "stop is acknowledged after the listener is cleared under the write lock; the listener is invoked only under the read lock; the stop function returns only after the acknowledgement; when the helper process cannot be started, every state field the start routine had set is reset before it returns the error (otherwise Close waits for goroutines that were never started)", 5)
+	c.Rule("C17.6", "the process-backed in port delivers what the helper writes: its reader goroutine hands every line to the line decoder, whose read discipline and size limits are C19.3 / C19.6 (one-byte reads with checked count, one record per call, no line-length limit below a 2000-byte message)", 4)
+	c.include(checkC19, map[string]string{"C19.3": "C17.6", "C19.6": "C17.6"})
 	c.Rule("C17.4", "in-memory driver typestate: fields written by the stop closure are re-initialised by Listen on every path; nil-able pointer fields are dereferenced only under a nil test; Send consults the stop flag before feeding the decoder", 3)
 	c.Rule("C17.5", "siblings: every Port implementation's Open (Close) returns nil without effects when already open (closed); every Out.Send reaches the transport only through the open test whose failing edge returns ErrPortClosed", 10)
 
